@@ -117,7 +117,13 @@ impl SizesInfo {
         let block_num = uncompressed_pos / u64::from(UNCOMPRESSED_DATA_SIZE);
         let index = usize::try_from(block_num)
             .map_err(|_| io::Error::new(io::ErrorKind::InvalidData, "Integer conversion failed"))?;
-        Ok(self.compressed_sizes[index])
+        self.compressed_sizes.get(index).copied().ok_or_else(|| {
+            io::Error::new(
+                io::ErrorKind::InvalidData,
+                "No compressed block at this position",
+            )
+            .into()
+        })
     }
 
     /// Maximum uncompressed available position
